@@ -53,22 +53,31 @@ add("C04", "other",
     "EndForward at every EndReverse of the multi-pass classes (SingleMemory, SingleDisk copy, TwoLevel: "
     "periodic checkpoints only ever copied) are discharged VCs from the coupling invariants. " + REV)
 add("C05", "other",
-    "Proved (VC): n_advance range/endpoint contract incl. termination; argmin returns the last "
-    "minimiser. The optimality claim itself (stream steps == Griewank-Walther optimum) is decided by "
-    "the bounded layer: T_adv bridge on the real n_advance for all n<=400 (quick) / 3000 (thorough), all "
-    "unit counts, both trajectories, against the closed form; Multistage/Revolve stream steps and "
-    "optimal_steps_binomial on the box. That no executable schedule does better is GW2000 (assumed).")
+    "Proved (VC): optimal_extra_steps / optimal_steps_binomial equal the Griewank-Walther recurrence GWX "
+    "(definitional axioms) for all n, s; n_advance range/endpoint contract with termination; argmin "
+    "returns the last minimiser; get_opt_0_table entries equal the memory-only recurrence OPT0 and "
+    "revolve() builds a sequence of makespan OPT0(cm,l)+(l+1)*uf for all l, cm>=1 and all costs. "
+    "That the *streams* of Multistage/Revolve take exactly the optimum number of steps (the bridge from "
+    "n_advance's closed form to the recurrence, and from makespan to stream) is bounded: T_adv on the real "
+    "n_advance for all n<=400/3000, stream steps on the box; the recurrence itself is validated against "
+    "a Dijkstra search over all executable action sequences for n<=6/8.")
 add("C06", "other",
-    "Proved (VC): shape contract of mixed_step_memoization (never FORWARD, lengths in range), Mixed "
-    "constructor domain (raises exactly outside the documented domain). Stream steps == mixed optimum "
-    "and independence of the storage: bounded (all n<=60 / 200, all s, both storages) against an "
-    "independent recurrence; optimality of the recurrence is Maddison 2024 (assumed).")
+    "Proved (VC): mixed_step_memoization's cost equals the Maddison recurrence MIXOPT with the "
+    "documented tie-breaking (well-founded recursion on n), optimal_steps_mixed == MIXOPT, the Mixed "
+    "constructor raises exactly outside the documented domain, and the chosen storage flows only into "
+    "the storage arguments of emitted actions (AST data-flow obligation: step counts cannot depend on "
+    "it). Stream steps == MIXOPT: bounded (all n<=60/200, all s, both storages); MIXOPT validated by "
+    "Dijkstra search over executable sequences for n<=6/8.")
 add("C07", "other",
-    "Proved (VC): argmin (last index attaining the minimum, for every list), revolver_parameters "
-    "(cost roles reach the parameter dictionary unswapped). Cost equalities and the monotonicity "
-    "relations: bounded - stream cost counted by the reference executor vs exact-rational "
-    "recurrences for n<=16, 16 cost vectors incl. uf!=ub, wd!=rd, zeros. Optimality of the recurrences "
-    "is the cited theorems (assumed).")
+    "Proved (VC), for all l, cm>=1 and all real costs: get_opt_0_table == OPT0 recurrence, "
+    "get_opt_inf_table == Disk-Revolve recurrence OPTINF, revolve() makespan == OPT0+(l+1)uf, "
+    "disk_revolve() makespan == OPTINF+(l+1)uf (so cost(DiskRevolve) <= cost(Revolve) at the sequence "
+    "level by the recurrence), argmin, revolver_parameters; Table class; the sequence-algebra accessors "
+    "(Operation.cost, Sequence.insert/insert_sequence/shift/remove_useless_wm) are assumed contracts "
+    "validated at run time. Not under contract: get_hopt_table/hrevolve_* (extended reals, 3-level "
+    "tables), periodic_disk_revolve, and the link stream cost == makespan through the iterator: "
+    "bounded - stream cost vs exact-rational recurrences for n<=16, 16 cost vectors incl. uf!=ub, "
+    "wd!=rd, zeros; recurrences validated by Dijkstra search for n<=4/5.")
 add("C08", "other",
     "schedule.n == executor forward position, schedule.r == executor adjoint counter (reset at "
     "EndReverse iff another pass is permitted), max_n None or the true step count: discharged VCs at "
@@ -104,17 +113,23 @@ add("C13", "other",
 add("C14", "other",
     "Proved (VC): the unit total depends on ram+disk only, at most the declared number of units is "
     "labelled RAM (CNT lemmas), every stack position keeps the storage self._storage[position] at every "
-    "write and load. Minimal DISK traffic (allocate_snapshots) and stream equality across splits: "
-    "bounded (all n<=24/60, all splits of s<=12, both trajectories).")
+    "write and load, and storage labels flow only into the storage arguments of emitted actions (AST "
+    "data-flow obligation) - so the stream is the same for every split up to labels. Minimal DISK "
+    "traffic (allocate_snapshots, singledispatch closures): bounded (all n<=24/60, all splits of "
+    "s<=12, both trajectories).")
 add("C15", "other",
-    "Proved (VC): frame clauses - observers assign nothing, finalize assigns only n/max_n, the iterators "
-    "assign only their declared fields, the generator wrapper caches one generator per object. "
-    "Independence from other schedules in the process (module-level caches): bounded - seeded "
-    "interleaved histories vs a fresh interpreter.")
+    "Proved: effect scan over every function of the package (no store to a location that outlives the "
+    "call except the justified ones: the memo dict of cache_step, closures' own enclosing locals, the "
+    "wrapper installation) and no mutable module-level container; cache_step.wrapped_fn returns "
+    "fn(n, min(s,n-1)) whatever the cache holds and keeps the cache invariant (F17); observers assign "
+    "nothing; one generator per object. Bounded: seeded interleaved histories vs a fresh interpreter.")
 add("C16", "other",
-    "Proved (VC): shape contract of the memoised planner. Cell-by-cell equality of "
-    "mixed_steps_tabulation, mixed_step_memoization and the independent spec, and stream equality with "
-    "the tabulated path forced: bounded (n<=120/400; numba itself is not installed).")
+    "Proved (VC): every cell of mixed_steps_tabulation satisfies the planner-step specification CELLOK "
+    "(kind, length, cost == Maddison recurrence with the documented tie-breaking; no index error, no "
+    "int64 overflow for n<2^31), mixed_step_memoization satisfies the same predicate, the predicate "
+    "determines the triple (uniqueness lemma), and the Mixed iterator is verified on both code paths "
+    "(memoised and tabulated). Assumed: numba compiles the tabulation faithfully (not installed); "
+    "bounded: cell-by-cell and stream equality with the tabulated path forced (n<=120/400).")
 add("C17", "other",
     "Constructor contracts (raise exactly outside the documented domain) and totality of the "
     "iterators of the VC classes (every raise unreachable, implicit exceptions excluded, loops "
@@ -126,9 +141,10 @@ add("C18", "other",
     "round trip, iteration order and Revolve-family actions: bounded (strings and yield-from are "
     "outside the encoding).")
 add("C19", "other",
-    "Bounded only at this commit for the stream clauses (positions of DISK writes/loads vs the closed "
-    "form with math.comb, per-segment Revolve optimum, all n<=60/200, RAM units 1..4, 16 cost vectors); "
-    "VC: revolver_parameters fixes one_read_disk/mx/fast, argmin.")
+    "Proved (VC): mxrr_close_formula returns int(beta(cm, t*)) with t* the first t with "
+    "beta(cm+1,t) > (wd+rd)/uf (beta uninterpreted) and has no dependence on n; each segment is built "
+    "by revolve(), proved memory-only optimal (makespan). Positions of DISK writes/loads in the stream, "
+    "read-once, beta == math.comb: bounded (all n<=60/200, RAM units 1..4, 16 cost vectors).")
 
 
 def main():
